@@ -215,7 +215,7 @@ PeerClose ==
   /\ Silent([s EXCEPT !.pfin = TRUE, !.net = Append(@, "fin")])
 \* one DataReceived(tunnel_connection) carrying the first n units
 Deliver(n) ==
-  /\ Live /\ s.tc.reading /\ n <= Len(s.net) /\ \A i \in 1..n : s.net[i] # "fin"
+  /\ Live /\ s.started /\ s.tc.reading /\ n <= Len(s.net) /\ \A i \in 1..n : s.net[i] # "fin"
   /\ n < Len(s.net) => s.ncut < MaxCut
   /\ LET u == SubSeq(s.net, 1, n)
          hb == HeadUnits(u)
@@ -226,13 +226,13 @@ Deliver(n) ==
                         !.ncut = IF n < Len(s.net) THEN @ + 1 ELSE @], [t |-> "tdata", u |-> u]))
 \* EOF from the peer: handle_connection clears CAN_READ, delivers ConnectionClosed, then either waits (half-open) or unregisters
 DeliverFin ==
-  /\ Live /\ s.tc.reading /\ s.net # <<>> /\ Head(s.net) = "fin"
+  /\ Live /\ s.started /\ s.tc.reading /\ s.net # <<>> /\ Head(s.net) = "fin"
   /\ LET s1 == Top([s EXCEPT !.net = Tail(@), !.tc.reading = FALSE, !.tc.r = FALSE], [t |-> "tfin"]) IN
      Step(<<[k |-> "in", what |-> "tclose", echo |-> FALSE]>>,
           [s1 EXCEPT !.tc.reg = IF s1.tc.w THEN @ ELSE FALSE])
 \* the reader task cancelled by a close command still delivers ConnectionClosed, then unregisters
 Echo ==
-  /\ Live /\ s.tc.echo
+  /\ Live /\ s.started /\ s.tc.echo
   /\ LET s1 == Top([s EXCEPT !.tc.echo = FALSE], [t |-> "tfin"]) IN
      Step(<<[k |-> "in", what |-> "tclose", echo |-> TRUE]>>, [s1 EXCEPT !.tc.reg = FALSE])
 
